@@ -247,7 +247,9 @@ func drawCall(rt *rapid.T) *callCase {
 			c.Unit, c.Times = text(rapid.SliceOfN(rapid.Byte(), 1, 4).Draw(rt, "unit")), rapid.IntRange(0, 1200).Draw(rt, "times")
 		}
 	case "CheckMnemonic", "IsMnemonicValid":
-		switch rapid.IntRange(0, 3).Draw(rt, "text-kind") {
+		switch rapid.IntRange(0, 4).Draw(rt, "text-kind") {
+		case 4: // a (possibly damaged) sentence with some separators typed as compatibility spaces
+			c.Tail = text(gen.Respell(gen.Defect().Draw(rt, "defect2").Text).Draw(rt, "respelled").S)
 		case 0:
 			c.Tail = text(gen.BString(200).Draw(rt, "bytes"))
 		case 1:
